@@ -204,14 +204,30 @@ fn serve_dhcp(cfg: &Config) {
         let offer = dhcp::handle_pkt(&mut pool, &dhcp_request(1, sip, None, false), ids.clone(), cfg);
         let want = match &offer {
             Ok(reply) => {
-                let _ = reply.serialise();
+                frame_of(sip, reply);
                 Some(reply.yiaddr)
             }
             Err(_) => Some("192.0.2.99".parse().unwrap()),
         };
         if let Ok(reply) = dhcp::handle_pkt(&mut pool, &dhcp_request(3, sip, want, true), ids, cfg) {
-            let _ = reply.serialise();
+            frame_of(sip, &reply);
         }
+    }
+}
+
+/// what the receive loop does with a reply: serialise it and build the frame (a panic here is a panic of the service)
+fn frame_of(sip: std::net::Ipv4Addr, reply: &dhcp::dhcppkt::Dhcp) {
+    use dhcp::dhcppkt::Serialise as _;
+    use erbium_net::addr::Inet4Addr;
+    let buf = reply.serialise();
+    if let Some(chaddr) = dhcp::verif::to_array(&reply.chaddr) {
+        let _ = dhcp::verif::reply_frame(
+            Inet4Addr::from(std::net::SocketAddrV4::new(sip, 67)),
+            &[2, 0, 0, 0, 0, 0xfe],
+            Inet4Addr::from(std::net::SocketAddrV4::new(reply.yiaddr, 68)),
+            &chaddr,
+            &buf,
+        );
     }
 }
 
@@ -571,6 +587,14 @@ fn examples() -> Vec<String> {
             cur.push_str(line);
             cur.push('\n');
         }
+    }
+    // one option value of tens of kilobytes (the loader sets no limit): replies around and beyond what a UDP
+    // datagram holds (65507 octets) must still be safe to serve
+    for n in [60000usize, 64738, 64750, 64770, 65300, 70000] {
+        out.push(format!(
+            "dhcp-policies:\n  - match-subnet: 192.0.2.0/24\n    apply-range: {{start: 192.0.2.10, end: 192.0.2.20}}\n    apply-wpad-url: \"{}\"\n",
+            "a".repeat(n)
+        ));
     }
     out
 }
